@@ -1,88 +1,10 @@
-"""Support for the C07 regression part: history correspondence with value-semantics isolation
-for the classes whose merge_state adopts source tensors by reference, and the probe that
-reports that aliasing precisely (defect of C11, met here)."""
+"""Support for the C07 regression part: the merge non-interference probe (a fresh target must not share
+tensors with the sources it merged; was defect D2 / C11, fixed in /repo 5bc2ee2 -- a recurrence is a VIOLATION)."""
 from __future__ import annotations
 from . import core, history
 from .compare import close, state_val
 from .model import run_model, crosscheck_in_coq, T
 
-ALIAS_FINDING = "C07-merge-adopts-source-by-reference"
-
-
-def dealias(e, ops, nobj):
-    """Value-semantics isolation for entries flagged alias_on_merge: every merge reads deep copies of
-    its sources (placed in scratch slots nobj, nobj+1, ...) and the target is deep-copied onto itself
-    afterwards, so that state adopted BY REFERENCE never outlives the merge_state call.  All inserted
-    ops are `clone` ops: no-ops on the values in the (value-semantics) model.  Returns (ops, pool size)."""
-    if not getattr(e, "alias_on_merge", False):
-        return list(ops), nobj
-    out, extra = [], 0
-    for o in ops:
-        if o[0] == "merge":
-            js = list(o[2])
-            for k, j in enumerate(js):
-                out.append(("clone", j, nobj + k))
-            extra = max(extra, len(js))
-            out.append(("merge", o[1], [nobj + k for k in range(len(js))]) + tuple(o[3:]))
-            out.append(("clone", o[1], o[1]))
-        else:
-            out.append(o)
-    return out, nobj + extra
-
-
-def hist_corr(ctx, ents, name="history-correspondence (regression family)", nhist=None, nops=(4, 8, 14), maxn=8):
-    """streams.hist_corr with the dealias transform (same comparison, shrinking, obligations)."""
-    s = ctx.stream(name)
-    cases, meta = [], []
-    ents = [e for e in ents if e.model]
-    for e in ents:
-        cfgs = e.configs(ctx.rng, ctx.quick)
-        per = nhist or ctx.n(14, 150)
-        for h in range(per):
-            cfg = cfgs[h % len(cfgs)]
-            nobj = ctx.rng.choice([2, 3, 3, 4])
-            raw = history.gen_history(ctx.rng, e, cfg, nobj=nobj, nops=ctx.rng.choice(list(nops)), maxn=maxn)
-            ops, n2 = dealias(e, raw, nobj)
-            cases.append(history.model_case(e, cfg, n2, ops))
-            meta.append((e, cfg, nobj, raw, ops, n2))
-    outs = run_model(cases)
-    bad = {}
-    for (e, cfg, nobj, raw, ops, n2), mobs in zip(meta, outs):
-        try:
-            iobs = history.run_impl(e, cfg, n2, ops)
-            d = history.compare_obs(e, ops, mobs, iobs)
-        except Exception as ex:
-            d = {"at": -1, "why": f"implementation raised outside update/compute: {type(ex).__name__}: {ex}"}
-        kinds = {o[0] for o in ops}
-        s.case((e.name, repr(cfg), repr(ops)), len(kinds) >= 3 and len(ops) >= 4,
-               sample={"class": e.name, "cfg": cfg, "nobj": n2, "ops": [list(o[:2]) for o in ops][:8]})
-        s.count("class:" + e.name)
-        for o in ops:
-            s.count("op:" + o[0])
-        if d and e.name not in bad:
-            def fails(trial, e=e, cfg=cfg, nobj=nobj):
-                try:
-                    t2, m2 = dealias(e, trial, nobj)
-                    return history.check_history(e, cfg, m2, t2) is not None
-                except Exception:
-                    return True
-            small = history.shrink_ops(raw, fails)
-            small = history.shrink_batches(e, cfg, small, fails)
-            small, m2 = dealias(e, small, nobj)
-            try:
-                d2 = history.check_history(e, cfg, m2, small) or d
-            except Exception as ex:
-                d2 = {"why": f"{type(ex).__name__}: {ex}"}
-            bad[e.name] = {"class": e.name, "cfg": cfg, "nobj": m2, "ops": small, "disagreement": d2}
-            s.mismatches.append(bad[e.name])
-    n, dis = crosscheck_in_coq(cases, outs, ctx.prop + "h", limit=ctx.n(40, 200))
-    ctx.oblige(f"tie:extraction-vs-vm_compute:{name}", dis == 0,
-               detail=f"{dis} of {n} sampled cases differ between extracted OCaml and in-Coq vm_compute")
-    s.dist["in_coq_crosschecked"] = n
-    for e in ents:
-        m = bad.get(e.name)
-        ctx.oblige(f"tie:corr:{e.name}", m is None, detail=repr(core.canon(m))[:1500] if m else "")
-    return bad
 
 
 def alias_probe(ctx, ents):
@@ -119,4 +41,4 @@ def alias_probe(ctx, ents):
                                    "observed": "state of the SOURCE object 1 changed: " + d,
                                    "expected": "source unchanged (value semantics; fix: adopt `.clone()` in merge_state)",
                                    "broken": f"non-interference:{e.name}"},
-                                  finding_id=ALIAS_FINDING)
+                                  finding_id=None)
